@@ -237,6 +237,53 @@ def _mk(n):
     return [0] * n if _replaying() else SizedList(n)
 
 
+class SizedMut(SizedList):
+    """SizedList whose element-adding methods adjust the symbolic length (contents abstracted)"""
+
+    def append(self, v):
+        self.n = self.n + 1
+
+    def insert(self, i, v):
+        self.n = self.n + 1
+
+    def extend(self, other):
+        self.n = self.n + len(other)
+
+    def __setitem__(self, i, v):
+        if not (-self.n <= i < self.n):
+            raise IndexError("list assignment index out of range")
+
+    def __getitem__(self, i):
+        if isinstance(i, slice):
+            return SizedMut(0)
+        if not (-self.n <= i < self.n):
+            raise IndexError("list index out of range")
+        return 0
+
+
+def mut_sized(n: int, i: int, v: int) -> None:
+    """
+    pre: n >= 0
+    post: True
+    """
+    # same obligation as mut_list, with the list abstracted to its LENGTH: counterexamples near the cap are then two
+    # integers instead of a 10000-element list (which CrossHair cannot realise); the replay builds the real list
+    hlib.enter(locals())
+    name = hlib.PARAM["fn"]
+    arr = [0] * n if _replaying() else SizedMut(n)
+    raised = None
+    try:
+        _call(name, arr, i, v)
+    except Exception as e:
+        raised = e
+    if n >= CAP:
+        assert isinstance(raised, ParserError), "element-adding operation on a full list did not fail with ParserError"
+        assert len(arr) == n, "full list changed by a failing operation"
+    else:
+        assert len(arr) <= n + 1 and len(arr) <= CAP, "list grew by more than one element / beyond the cap"
+    hlib.done()
+
+
 def growth_str(na: int, nb: int) -> None:
     """
     pre: 0 <= na and 0 <= nb
